@@ -104,6 +104,20 @@ func affineOf(c *Ctx, fn *ssa.Function, v ssa.Value, depth int) affineForm {
 			if p := accessPathOf(c, fn, x); p != "" {
 				return sym(p)
 			}
+			// a field of the object under construction: forward the value stored before
+			if fa, ok := x.X.(*ssa.FieldAddr); ok {
+				if _, isAlloc := fa.X.(*ssa.Alloc); isAlloc {
+					for _, ref := range *fa.X.Referrers() {
+						if fa2, ok := ref.(*ssa.FieldAddr); ok && fa2.Field == fa.Field {
+							for _, r2 := range *fa2.Referrers() {
+								if st, ok := r2.(*ssa.Store); ok && st.Block().Dominates(x.Block()) {
+									return affineOf(c, fn, st.Val, depth+1)
+								}
+							}
+						}
+					}
+				}
+			}
 		}
 		if x.Op == token.SUB {
 			return affAdd(affineForm{coef: map[string]int64{}, ok: true}, affineOf(c, fn, x.X, depth+1), -1)
